@@ -1008,3 +1008,51 @@ Proof.
   intros H14 He Hstep c cs' Hc.
   destruct (versions_stable _ _ _ _ _ _ _ _ Hstep Hc) as [(cs & Hcs & ->)|(ver & -> & ->)]; [eapply H14; eauto|exact He].
 Qed.
+
+(* ================================================================ re-encoding for older peers *)
+(* a call is delivered to its callee as CallFunction2 (with the function version) exactly when the
+   callee negotiated >= 1.19, otherwise as the legacy CallFunction with the same serial, service,
+   function and payload; either way tagged with the caller's version *)
+Theorem call_forward m c cs serial sc fn ver v bserial k s callee ccs b nxt :
+  svc_by_cookie (ms m) sc = Some (k, s) -> owner_of_svc (ms m) k = Some callee ->
+  conns (ms m) !! c = Some cs -> pick_serial (ms m) bserial = Some (b, nxt) ->
+  cs_calls cs !! serial = None -> conns (ms m) !! callee = Some ccs -> cs_alive ccs = true ->
+  exists m', call_impl m c serial sc fn ver v bserial = Done m' /\
+    mo m' = mo m ++ [(callee, (if 19 <=? cs_ver ccs then CallFunction2 b sc fn ver v else CallFunction b sc fn v),
+                      Some (cs_ver cs))].
+Proof.
+  intros Hs Ho Hc Hp Hn Hcc Ha. unfold call_impl. rewrite Hs, Ho, Hc, Hp.
+  rewrite bool_decide_eq_false_2 by (rewrite Hn; intros [? ?]; discriminate).
+  pose proof (svc_by_cookie_Some _ _ _ _ Hs) as Hk.
+  change (svcs (ms (m <| ms; next := nxt |>))) with (svcs (ms m)).
+  change (conns (ms (m <| ms; next := nxt |>))) with (conns (ms m)). rewrite Hk, Hcc.
+  match goal with |- context [send_or_remove ?mm _ _ _] => set (m1 := mm) end.
+  assert (Hc1 : exists ccs', conns (ms m1) !! callee = Some ccs' /\ cs_alive ccs' = true).
+  { subst m1. cbn. destruct (decide (c = callee)) as [->|Hne].
+    - rewrite lookup_insert. eexists. split; [reflexivity|]. cbn. rewrite Hc in Hcc. injection Hcc as ->. exact Ha.
+    - rewrite lookup_insert_ne by exact Hne. eauto. }
+  destruct Hc1 as (ccs' & Hc1 & Ha1).
+  change MIN_CALL_FUNCTION2_OUT with 19.
+  destruct (19 <=? cs_ver ccs); unfold send_or_remove, send; rewrite Hc1, Ha1; eexists; (split; [reflexivity|reflexivity]).
+Qed.
+
+(* create_service2 from a 1.17 client: subscribe_all is cleared before the service is stored *)
+Theorem create_service2_old_creator m c cs serial oc u i fresh b :
+  conns (ms m) !! c = Some cs -> cs_ver cs = 17 ->
+  handle m c (CreateService2 serial oc u (Some i)) fresh b =
+  create_service_impl m c serial oc u
+    (Some {| i_version := i_version i; i_type_id := i_type_id i; i_sub_all := Some false |}) fresh.
+Proof.
+  intros Hc Hv. unfold handle, gate, ver_of. rewrite Hc. cbn [fmap option_fmap option_map]. rewrite Hv.
+  reflexivity.
+Qed.
+
+Theorem create_service2_new_creator m c cs serial oc u i fresh b :
+  conns (ms m) !! c = Some cs -> 18 <= cs_ver cs ->
+  handle m c (CreateService2 serial oc u (Some i)) fresh b =
+  create_service_impl m c serial oc u (Some i) fresh.
+Proof.
+  intros Hc Hv. unfold handle, gate, ver_of. rewrite Hc. cbn [fmap option_fmap option_map].
+  change MIN_CREATE_SERVICE2 with 17. change MIN_CREATE_SERVICE2_SUB_ALL with 18.
+  destruct (N.ltb_spec (cs_ver cs) 17); [lia|]. destruct (N.ltb_spec (cs_ver cs) 18); [lia|]. reflexivity.
+Qed.
